@@ -65,9 +65,79 @@ def prim_lines(r, n, shifts):
     return lines
 
 
+def rand_table(r):
+    """a coverage table as the `digest collect` / `digest covget` requests write it: (fmt, items, glyph ids worth asking
+    for, kind).  Half of the tables are NOT sorted: shuffled / rotated / reversed arrays, duplicates, range records that are
+    unsorted, overlap, are nested or have start > end — `Coverage::get` is a binary search and still finds some entries."""
+    near = r.chance(1, 2)
+    base = rand_gid(r)
+    def gid():
+        return min(65535, base + r.below(40)) if near else rand_gid(r)
+    if r.chance(1, 2):
+        gs = sorted({gid() for _ in range(r.range(0, 9))})
+        kind = r.choice(["sorted", "shuffled", "rotated", "reversed", "duplicates", "one-descent"]) if gs else "empty"
+        if kind == "shuffled": gs = r.shuffle(gs)
+        elif kind == "rotated":
+            j = r.range(1, len(gs)) % len(gs); gs = gs[j:] + gs[:j]
+        elif kind == "reversed": gs = gs[::-1]
+        elif kind == "duplicates":
+            for _ in range(r.range(1, 3)): gs.insert(r.below(len(gs) + 1), r.choice(gs))
+        elif kind == "one-descent":
+            g = gs.pop(r.below(len(gs))); gs.insert(r.choice([0, len(gs)]), g)
+        ask = list(gs)
+        return 1, (",".join(map(str, gs)) or "-"), ask, "array:" + kind
+    rs, a = [], gid()
+    for _ in range(r.range(0, 5)):
+        b = min(65535, a + r.choice([0, 0, 1, 3, 10, 70, 600]))
+        rs.append((a, b))
+        a = min(65535, b + 1 + r.choice([0, 1, 5, 100]))
+    kind = r.choice(["sorted", "shuffled", "overlapping", "inverted", "nested-duplicate"]) if rs else "empty"
+    if kind == "shuffled": rs = r.shuffle(rs)
+    elif kind == "overlapping": rs = [(a, min(65535, b + r.range(0, 12))) for a, b in rs]
+    elif kind == "inverted":
+        a, b = r.choice(rs); rs.insert(r.below(len(rs) + 1), (min(65535, b + r.below(2)), a))
+    elif kind == "nested-duplicate":
+        a, b = r.choice(rs); rs.insert(r.below(len(rs) + 1), (a, b))
+        c = r.range(a, b); rs.insert(r.below(len(rs) + 1), (c, r.range(c, b)))
+    ask = []
+    for a, b in rs:
+        lo, hi = min(a, b), max(a, b)
+        ask += [a, b, (a + b) // 2, r.range(lo, hi), max(0, lo - 1), min(65535, hi + 1)]
+    return 2, (",".join(f"{a}-{b}" for a, b in rs) or "-"), ask, "ranges:" + kind
+
+
+def cov_lines(r, n):
+    """`collect` (the real CoverageExt::collect vs Digest.collect) and `covget` (Coverage::get vs the modelled binary
+    search) on tables written as given"""
+    lines = []
+    for _ in range(n):
+        fmt, items, ask, kind = rand_table(r)
+        if r.chance(1, 2):
+            m = [rand_mask(r) if r.chance(1, 3) else 0 for _ in range(3)]
+            lines.append(f"digest collect {m[0]} {m[1]} {m[2]} {fmt} {items}")
+        else:
+            g = r.choice(ask) if ask and r.chance(4, 5) else rand_gid(r)
+            lines.append(f"digest covget {fmt} {items} {g}")
+    return lines
+
+
+def table_kind(fmt, items):
+    if items == "-": return "empty"
+    if fmt == "1":
+        gs = [int(x) for x in items.split(",")]
+        return "array:sorted" if all(a < b for a, b in zip(gs, gs[1:])) else "array:NOT-strictly-ascending"
+    rs = [tuple(int(v) for v in x.split("-")) for x in items.split(",")]
+    ok = all(a <= b for a, b in rs) and all(x[1] < y[0] for x, y in zip(rs, rs[1:]))
+    return "ranges:sorted-disjoint" if ok else "ranges:NOT-sorted-disjoint"
+
+
 def classify(ln, out):
     t = ln.split()
     ks = [t[1]]
+    if t[1] == "collect":
+        ks.append("collect:" + table_kind(t[5], t[6]))
+    if t[1] == "covget":
+        ks.append("covget:" + table_kind(t[2], t[3]) + (":found" if out != "-" else ":not-found"))
     if t[1] == "range":
         a, b = int(t[4]), int(t[5])
         ks.append("range:inverted" if a > b else ("range:saturated" if out.endswith(" 0") else "range:short"))
@@ -116,6 +186,268 @@ def soundness_search(ctx, shim, r, n):
     ctx.note_search("digest-sound", len(q), len(set(q)),
                     rule="build a digest by random add/add_array/add_range on the crate, then ask may_have_glyph "
                          "for every added id and for end/mid/random points of every added range; distinct = distinct queries")
+
+
+def coverage_sound_search(ctx, shim, r, n):
+    """Oracle on the implementation alone, hook level: whatever `Coverage::get` finds in a table — written in any order —
+    must be reported by the digest `CoverageExt::collect` builds from the same table (theorem C10_collect_sound_found)."""
+    tabs = [rand_table(r) for _ in range(n)]
+    masks = vlib.run_lines(shim, [f"digest collect 0 0 0 {fmt} {items}" for fmt, items, _, _ in tabs])
+    q, idx = [], []
+    for i, ((fmt, items, ask, kind), m) in enumerate(zip(tabs, masks)):
+        if m.startswith("panic") or m.startswith("abort") or len(m.split()) != 3:
+            ctx.violation(f"collecting a coverage table crashed: {m[:160]}", {"stage": "search", "stream": "coverage-digest-sound",
+                          "request": f"digest collect 0 0 0 {fmt} {items}", "observed": m})
+            continue
+        for g in sorted(set(ask)):
+            q.append(f"digest covget {fmt} {items} {g}"); idx.append((i, g))
+    found = vlib.run_lines(shim, q)
+    q2, idx2 = [], []
+    for (i, g), f in zip(idx, found):
+        if f != "-" and not f.startswith("panic"):
+            q2.append(f"digest hasglyph {masks[i]} {g}"); idx2.append((i, g, f))
+    res = vlib.run_lines(shim, q2)
+    bad = 0
+    unsorted_found = 0
+    for (i, g, f), o in zip(idx2, res):
+        fmt, items, _, kind = tabs[i]
+        if not kind.endswith(":sorted"):
+            unsorted_found += 1
+        if o != "1":
+            bad += 1
+            if bad <= 3:
+                ctx.violation(f"Coverage::get finds glyph {g} (coverage index {f}) in a {kind} table, but the digest collected from "
+                              f"the same table reports it absent: a lookup keyed on this table is skipped where it would apply",
+                              {"stage": "search", "stream": "coverage-digest-sound", "theorem": "C10_collect_sound_found",
+                               "request": f"digest collect 0 0 0 {fmt} {items}", "table_format": fmt, "table": items,
+                               "table_kind": kind, "glyph": g, "coverage_get": f, "digest": masks[i],
+                               "query": f"digest hasglyph {masks[i]} {g}", "expected": "1", "observed": o})
+    ctx.note_search("coverage-digest-sound", len(q2), unsorted_found, tables=len(tabs), deviations=bad,
+                    rule="coverage tables written as given (format 1: sorted / shuffled / rotated / reversed / duplicates / one descent; "
+                         "format 2: sorted / shuffled / overlapping / start > end / nested and repeated ranges) through the real "
+                         "CoverageExt::collect and Coverage::get; for every entry, range end, midpoint and neighbour that get() finds, the "
+                         "collected digest must answer may_have_glyph; cases = glyphs found; non-trivial = found in a table that is not sorted")
+
+
+# ------------------------------------------------------------------------------------------------
+# malformed-but-accepted fonts: GSUB and GPOS subtables of every type (also behind extension lookups) whose coverage and
+# class-definition tables are written out of order / with duplicates / with overlapping or inverted ranges
+
+GPOS_TAGS = ["kern", "mark", "mkmk", "curs", "dist", "abvm", "blwm"]
+
+
+def rand_gpos(r, n):
+    """a GPOS table recipe with lookups of every type 1-8 (fontbuild format), well formed"""
+    def cov(kmin=1, kmax=5):
+        return sorted(set(r.sample(list(range(1, n)), r.range(kmin, min(kmax, n - 1)))))
+    def vr():
+        k = r.below(4)
+        if k == 0: return {"xAdvance": r.range(-60, 60)}
+        if k == 1: return {"xPlacement": r.range(-40, 40), "yPlacement": r.range(-40, 40)}
+        if k == 2: return {"xAdvance": r.range(-60, 60), "yAdvance": r.range(-20, 20), "xPlacement": r.range(-9, 9)}
+        return None
+    def anc():
+        return None if r.chance(1, 8) else (r.range(-200, 200), r.range(-200, 200))
+    classdefs = [{g: r.range(1, 2) for g in range(1, n) if r.chance(1, 2)} for _ in range(2)] + [{}]
+    nl = r.range(2, 6)
+    lookups = []
+    for li in range(nl):
+        t = r.choice([1, 2, 2, 3, 4, 5, 6, 7, 8])
+        subs = []
+        for _ in range(r.range(1, 2)):
+            if t == 1:
+                c = cov()
+                subs.append({"format": 1, "coverage": c, "value": vr() or {"xAdvance": 7}} if r.chance(1, 2) else
+                            {"format": 2, "coverage": c, "values": [vr() or {"xAdvance": 3} for _ in c]})
+            elif t == 2:
+                c = cov()
+                if r.chance(1, 2):
+                    subs.append({"format": 1, "coverage": c, "pairsets": [
+                        [(s2, vr() or {"xAdvance": 5}, vr()) for s2 in sorted(set(r.sample(list(range(1, n)), r.range(1, 3))))] for _ in c]})
+                else:
+                    cd1, cd2 = r.choice(classdefs), r.choice(classdefs)
+                    n1, n2 = max(cd1.values(), default=0) + 1, max(cd2.values(), default=0) + 1
+                    subs.append({"format": 2, "coverage": cov(2, 7), "classdef1": dict(cd1), "classdef2": dict(cd2),
+                                 "matrix": [[(vr() or {"xAdvance": 9}, vr()) for _ in range(n2)] for _ in range(n1)]})
+            elif t == 3:
+                c = cov(2, 6)
+                subs.append({"coverage": c, "entry_exit": [(anc(), anc()) for _ in c]})
+            elif t in (4, 5, 6):
+                k = r.range(1, 2)
+                mc, bc = cov(1, 4), cov(1, 5)
+                marks = [(r.below(k), anc() or (1, 1)) for _ in mc]
+                if t == 4:
+                    subs.append({"mark_coverage": mc, "base_coverage": bc, "class_count": k, "marks": marks,
+                                 "bases": [[anc() for _ in range(k)] for _ in bc]})
+                elif t == 5:
+                    subs.append({"mark_coverage": mc, "lig_coverage": bc, "class_count": k, "marks": marks,
+                                 "ligs": [[[anc() for _ in range(k)] for _ in range(r.range(1, 3))] for _ in bc]})
+                else:
+                    subs.append({"mark1_coverage": mc, "mark2_coverage": bc, "class_count": k, "marks": marks,
+                                 "mark2": [[anc() for _ in range(k)] for _ in bc]})
+            else:
+                subs.append(gsubgen.rand_subtable(r, t - 2, n, nl, li, classdefs))     # GPOS 7 / 8 = the GSUB 5 / 6 layouts
+        lookups.append({"type": t, "flag": r.choice([0, 0, 0, 8, 2]), "subtables": subs})
+    tags = r.sample(GPOS_TAGS, r.range(1, 3))
+    feats = [{"tag": t, "lookups": sorted(set(r.sample(list(range(nl)), r.range(1, nl))))} for t in tags]
+    return {"features": feats, "lookups": lookups}
+
+
+def malformed_fonts(r, nfonts, prefix="M"):
+    """[(font id, recipe, hex, statistics of the table kinds written)]"""
+    out = []
+    stats = {}
+    for i in range(nfonts):
+        rec = gsubgen.rand_recipe(r)
+        kind = r.below(3)
+        if kind >= 1:
+            rec["gpos"] = rand_gpos(r, rec["num_glyphs"])
+        if kind == 2:
+            del rec["gsub"]
+        gsubgen.malform_recipe(r, rec, stats)
+        try:
+            out.append((f"{prefix}{i}", rec, fontbuild.hexfont(rec)))
+        except fontbuild.FontBuildError:
+            continue
+    return out, stats
+
+
+def coverage_as_written(c):
+    """(fmt, items) of a recipe coverage as fontbuild serialises it, in the syntax of the `digest` requests; None = not derivable"""
+    if isinstance(c, dict):
+        if not c.get("raw"):
+            return None
+        if "ranges" in c:
+            return 2, (",".join(f"{int(x[0])}-{int(x[1])}" for x in c["ranges"]) or "-")
+        return 1, (",".join(str(int(g)) for g in c.get("glyphs", [])) or "-")
+    if isinstance(c, (list, tuple)):
+        return 1, (",".join(str(g) for g in sorted({int(g) for g in c})) or "-")
+    return None
+
+
+def primary_coverage(table, ltype, st):
+    """the coverage table `subtable.coverage()` returns (what the lookup digest is built from), as written"""
+    if isinstance(st, dict) and "extension" in st:
+        return primary_coverage(table, st["ext_type"], st["extension"])
+    ctx_types = (5, 6) if table == "gsub" else (7, 8)
+    if table == "gpos" and ltype in (4, 5):
+        c = st.get("mark_coverage")
+    elif table == "gpos" and ltype == 6:
+        c = st.get("mark1_coverage")
+    elif ltype in ctx_types and st.get("format") == 3:
+        cs = st.get("coverages", st.get("input")) or [None]
+        c = cs[0]
+    else:
+        c = st.get("coverage")
+    return coverage_as_written(c)
+
+
+def lookup_digest_groups(fonts):
+    """correspondence requests: the digest the crate built for every lookup of the malformed fonts vs Digest.lookupDigest over
+    the subtables' coverage tables as written in the recipe"""
+    groups = []
+    for fid, rec, hexf in fonts:
+        lines = [f"font {fid} {hexf}"]
+        for table in ("gsub", "gpos"):
+            for li, lk in enumerate((rec.get(table) or {}).get("lookups", [])):
+                covs = [primary_coverage(table, lk["type"], st) for st in lk["subtables"]]
+                if any(c is None for c in covs):
+                    continue
+                lines.append(f"digest lookupdigest {fid} {table} {li} COVS " + " ".join(f"{f} {it}" for f, it in covs))
+        groups.append(lines)
+    return groups
+
+
+def classify_lookup(ln, out):
+    t = ln.split()
+    ks = [t[3]]
+    covs = t[6:]
+    kinds = {table_kind(covs[i], covs[i + 1]) for i in range(0, len(covs), 2)}
+    ks += ["lookup:" + k for k in sorted(kinds)]
+    ks.append(f"subtables:{len(covs) // 2}")
+    return ks
+
+
+def lookup_digest_search(ctx, shim, fonts, stats):
+    """Oracle on the crate alone, font level: for every GSUB / GPOS lookup as the crate parsed it and every glyph that the
+    coverage of one of its subtables reports (Coverage::get), the lookup's digest must answer may_have_glyph."""
+    groups = [[f"font {fid} {hexf}", f"digest lookups {fid} gsub {rec['num_glyphs']}", f"digest lookups {fid} gpos {rec['num_glyphs']}"]
+              for fid, rec, hexf in fonts]
+    outs = vlib.run_groups(shim, groups, timeout=300)
+    q, idx = [], []
+    nlook = 0
+    for (fid, rec, hexf), o in zip(fonts, outs):
+        for ti, table in ((1, "gsub"), (2, "gpos")):
+            x = o[ti]
+            if not x.startswith("ok "):
+                if x.startswith("panic") or x.startswith("abort") or x == "timeout":
+                    ctx.violation(f"reading the lookup digests of a generated font does not return normally: {x[:160]}",
+                                  {"stage": "search", "stream": "lookup-digest-sound", "font_line": groups[0][0][:80], "recipe": rec,
+                                   "request": f"digest lookups {fid} {table} {rec['num_glyphs']}", "observed": x})
+                continue
+            for li, tok in enumerate(x.split()[2:]):
+                m0, m1, m2, gl = tok.split(":")
+                nlook += 1
+                if gl == "-":
+                    continue
+                for g in gl.split(","):
+                    q.append(f"digest hasglyph {m0} {m1} {m2} {g}"); idx.append((fid, rec, hexf, table, li, int(g), (m0, m1, m2)))
+    res = vlib.run_lines(shim, q)
+    bad = 0
+    for (fid, rec, hexf, table, li, g, m), o in zip(idx, res):
+        if o != "1":
+            bad += 1
+            if bad <= 3:
+                lk = (rec.get(table) or {}).get("lookups", [])
+                ctx.violation(f"{table.upper()} lookup {li}: the coverage of a subtable reports glyph {g}, the lookup digest does not "
+                              f"(the prefilter skips the lookup where it would apply)",
+                              {"stage": "search", "stream": "lookup-digest-sound", "theorem": "C10_lookup_digest_sound_found",
+                               "font_line": f"font {fid} {hexf}", "request": f"digest lookups {fid} {table} {rec['num_glyphs']}",
+                               "table": table, "lookup": li, "lookup_recipe": lk[li] if li < len(lk) else None, "glyph": g,
+                               "digest": " ".join(m), "query": f"digest hasglyph {' '.join(m)} {g}", "expected": "1", "observed": o})
+    ctx.note_search("lookup-digest-sound", len(q), len(q), fonts=len(fonts), lookups=nlook, deviations=bad, tables_written=dict(stats),
+                    rule="generated GSUB (types 1-6, 8) and GPOS (types 1-8) fonts, a fifth of the lookups behind extension lookups, every "
+                         "coverage / class definition rewritten malformed-but-accepted (tools/gsubgen.py malform_recipe); cases = (lookup, "
+                         "glyph) pairs where some subtable's Coverage::get reports the glyph; each must be in the lookup digest")
+
+
+def prefilter_malformed(ctx, shim, r, fonts, per_font):
+    """prefilter on vs off through shape() on the malformed fonts"""
+    groups, meta = [], []
+    for fid, rec, hexf in fonts:
+        n = rec["num_glyphs"]
+        tags = [f["tag"] for t in ("gsub", "gpos") for f in (rec.get(t) or {}).get("features", [])]
+        reqs = []
+        for _ in range(per_font):
+            feats = []
+            for t in tags:
+                if r.chance(2, 3):
+                    feats.append(f"{gsubgen.tag_hex(t)}:{r.choice([1, 1, 1, 2, 0])}:0:4294967295")
+            text = [0xE000 + r.range(1, n - 1) - 1 for _ in range(r.range(1, 10))]
+            t = ",".join(f"{cp:x}:{j}" for j, cp in enumerate(text))
+            reqs.append(f"shape {fid} {r.choice(['l', 'r', '-'])} - - {r.choice([0, 3])} {r.below(3)} {','.join(feats) or '-'} - - {t}")
+        groups.append([f"font {fid} {hexf}", "prefilter on"] + reqs + ["prefilter off"] + reqs + ["prefilter on"])
+        meta.append((reqs, rec))
+    outs = vlib.run_groups(shim, groups, timeout=600)
+    total = nontriv = bad = 0
+    for (reqs, rec), o, g in zip(meta, outs, groups):
+        n = len(reqs)
+        on = o[2:2 + n]; off = o[3 + n:3 + 2 * n]
+        for q, x, y in zip(reqs, on, off):
+            total += 1
+            gids_in = [int(e.split(":")[0], 16) - 0xE000 + 1 for e in q.split()[-1].split(",")]
+            es = [e.split(":") for e in y.split()[2:]] if y.startswith("ok") else []
+            if es and ([int(e[0]) for e in es] != gids_in or any(e[5:7] != ["0", "0"] for e in es if len(e) >= 7)):
+                nontriv += 1
+            if x != y:
+                bad += 1
+                if bad <= 3:
+                    ctx.violation("shaping differs with the digest prefilter on vs off (font with malformed-but-accepted coverage tables)",
+                                  {"stage": "search", "stream": "prefilter-on-off", "generator": "malformed", "font_line": g[0],
+                                   "request": q, "with_prefilter": x, "without_prefilter": y, "recipe": rec})
+    ctx.note_search("prefilter-malformed", total, nontriv, deviations=bad,
+                    rule="the malformed fonts of lookup-digest-sound x random PUA texts x features on / off, directions, cluster levels, "
+                         "through shape(); non-trivial = some glyph was substituted or moved")
 
 
 def exhaustive_search(ctx, shim, shifts):
@@ -297,7 +629,8 @@ def prefilter_syllabic(ctx, shim, r, nfonts, per_font):
 def run(ctx):
     ctx.assumptions += [
         "the theorems are about the Lean model of set_digest.rs, CoverageExt::collect and hb_buffer_t::digest; "
-        "the model is tied to the crate by the digest-prims correspondence stream (release semantics, wrapping u64)",
+        "the model is tied to the crate by the digest-prims correspondence stream (release semantics, wrapping u64), which also feeds "
+        "coverage tables written in any order through the real CoverageExt::collect and Coverage::get (hooks in ot_layout_common.rs)",
         "that a GSUB subtable does nothing at a position whose current glyph it does not cover is proved on the interpreter "
         "model Gsub.lean (C10_skip_position_is_noop / C10_skip_lookup_is_noop); that model is tied to the crate by the "
         "gsub-interp stream of C06; GPOS appliers are covered by the prefilter-on/off search only",
@@ -307,8 +640,15 @@ def run(ctx):
     shim = vlib.build_harness()
     shifts = [int(x) for x in vlib.run_lines(shim, ["digest shifts"], nproc=1)[0].split()]
     r = ctx.rng("prims")
-    ctx.correspond("digest-prims", lines=prim_lines(r, ctx.budget(20000, 400000), shifts), classify=classify)
+    ctx.correspond("digest-prims", lines=prim_lines(r, ctx.budget(20000, 400000), shifts)
+                   + cov_lines(ctx.rng("prims-cov"), ctx.budget(8000, 150000)), classify=classify)
     soundness_search(ctx, shim, ctx.rng("sound"), ctx.budget(3000, 60000))
+    coverage_sound_search(ctx, shim, ctx.rng("cov-sound"), ctx.budget(3000, 60000))
+    mfonts, mstats = malformed_fonts(ctx.rng("malformed"), ctx.budget(300, 5000))
+    ctx.correspond("lookup-digest", groups=lookup_digest_groups(mfonts), classify=classify_lookup,
+                   only=lambda ln: ln.startswith("digest "))
+    lookup_digest_search(ctx, shim, mfonts, mstats)
+    prefilter_malformed(ctx, shim, ctx.rng("prefilter-malformed"), mfonts, 6)
     if not ctx.quick:
         exhaustive_search(ctx, shim, shifts)
     prefilter_search(ctx, shim, ctx.rng("prefilter"), ctx.budget(250, 2128), ctx.budget(2, 8))
@@ -323,6 +663,20 @@ def replay(ctx, rp):
         o = vlib.run_groups(shim, [lines], nproc=1)[0]
         print("with prefilter   :", o[2]); print("without prefilter:", o[4])
         return 0 if o[2] == o[4] else 1
+    if rp.get("stream") == "coverage-digest-sound":
+        m = vlib.run_lines(shim, [rp["request"]], nproc=1)[0]
+        f = vlib.run_lines(shim, [f"digest covget {rp['table_format']} {rp['table']} {rp['glyph']}"], nproc=1)[0]
+        h = vlib.run_lines(shim, [f"digest hasglyph {m} {rp['glyph']}"], nproc=1)[0]
+        print("collected digest :", m); print("Coverage::get    :", f); print("may_have_glyph   :", h)
+        return 1 if (f != "-" and h != "1") else 0
+    if rp.get("stream") == "lookup-digest-sound":
+        o = vlib.run_groups(shim, [[rp["font_line"], rp["request"]]], nproc=1)[0]
+        print("lookups:", o[1][:3000])
+        tok = o[1].split()[2 + rp["lookup"]].split(":")
+        covered = str(rp["glyph"]) in tok[3].split(",")
+        h = vlib.run_lines(shim, [f"digest hasglyph {tok[0]} {tok[1]} {tok[2]} {rp['glyph']}"], nproc=1)[0]
+        print("covered:", covered, " may_have_glyph:", h)
+        return 1 if (covered and h != "1") else 0
     if "request" in rp:
         model = vlib.build_model()
         a = vlib.run_lines(shim, [rp["request"]], nproc=1)[0]
